@@ -5,7 +5,7 @@ artefacts).  Usage (inside an implementation driver, BEFORE importing autobahn):
 """
 import hashlib, importlib.util, os, sys, fcntl, shutil
 
-NVX = "/repo/src/autobahn/nvx"
+NVX = os.environ.get("AV_REPO", "/repo") + "/src/autobahn/nvx"
 OUT = os.path.join(os.path.dirname(os.path.dirname(os.path.dirname(os.path.abspath(__file__)))), "build", "nvx")
 
 
